@@ -428,6 +428,8 @@ func (db *DB) insertOrUpdate(s *Schema, o Object, commit bool) (err error) {
 	} else {
 		// writing the object to disk
 		if err = db.writeObject(o); err != nil {
+			// index and cache must keep reflecting what is on disk
+			db.rollback(s, o)
 			return
 		}
 
@@ -438,6 +440,25 @@ func (db *DB) insertOrUpdate(s *Schema, o Object, commit bool) (err error) {
 	}
 
 	return
+}
+
+// rollback restores index and cache entries of an Object which could
+// not be written, from the version of the Object still on disk (if any)
+func (db *DB) rollback(s *Schema, o Object) {
+	if s.mustCache() {
+		db.cache.delete(o)
+	}
+
+	old := newIterator(db, o, nil).object()
+	old.Initialize(o.UUID())
+	if err := unmarshalJsonFile(db.oPath(s, old), old); err == nil {
+		if err = s.index(old); err == nil {
+			return
+		}
+	}
+
+	// no usable previous version
+	s.unindex(o)
 }
 
 func (db *DB) delete(o Object) (err error) {
